@@ -22,6 +22,18 @@ impl TokenizationError {
     }
 }
 
+impl TokenizationError {
+    /// Like `string_range`, but for the actual string the error is about, so that
+    /// the range never ends in the middle of a (multi-byte) character.
+    pub fn string_range_in(&self, string: &str) -> Range<usize> {
+        let mut range = self.string_range(string.len());
+        while range.end < string.len() && !string.is_char_boundary(range.end) {
+            range.end += 1;
+        }
+        range
+    }
+}
+
 impl Display for TokenizationError {
     fn fmt(&self, f: &mut std::fmt::Formatter<'_>) -> std::fmt::Result {
         match self {
